@@ -92,8 +92,8 @@ var bceTable = map[string]bceRow{
 	"s3api/utils:ChunkReader.checkSignature":              {1, 0, whyStd},
 	"s3api/utils:ChunkReader.getChunkStringToSign":        {1, 0, whyStd},
 	"s3api/utils:ChunkReader.getTrailerChunkStringToSign": {1, 0, whyStd},
-	"s3api/utils:ChunkReader.parseAndRemoveChunkInfo":     {0, 6, whyChunk},
-	"s3api/utils:ChunkReader.parseChunkHeaderBytes":       {0, 3, whyChunk + "; " + whyStd},
+	"s3api/utils:ChunkReader.parseAndRemoveChunkInfo":     {0, 4, whyChunk},
+	"s3api/utils:ChunkReader.parseChunkHeaderBytes":       {0, 2, whyChunk + "; " + whyStd},
 	"s3api/utils:ChunkReader.verifyChecksum":              {0, 1, whyStd},
 	"s3api/utils:ChunkReader.verifyTrailerSignature":      {1, 0, whyStd},
 	"s3api/utils:GetUserMetaData":                         {0, 1, "hKey[11:] after HasPrefix(ToLower(hKey), \"x-amz-meta-\"): every byte of the 11-byte ASCII prefix lower-cases from a byte sequence that is not shorter"},
@@ -369,7 +369,6 @@ func runC20(p *Program, r *Report) {
 			inb, slb := 0, 0
 			var where, whereOwn []string
 			ownN, copies, idiom := 0, 0, 0
-			_ = idiom
 			for _, s := range ss {
 				if k := fmt.Sprintf("%s:%d:%s", s.file, s.line, s.kind); !own[k] {
 					for _, callee := range callsModule[fmt.Sprintf("%s:%d", s.file, s.line)] {
@@ -406,6 +405,11 @@ func runC20(p *Program, r *Report) {
 				}
 			default:
 				// only accesses written in this function count; the rest is inlined library code
+				// accesses an idiom prover discharges (sort callbacks, search results) are part of the reviewed
+				// count but not of ownN: they do not make room for new unproven accesses
+				if allowed -= idiom; allowed < 0 {
+					allowed = 0
+				}
 				over := ownN - allowed
 				if !ok {
 					over = ownN
